@@ -673,6 +673,30 @@ def gen_ops(rng: random.Random, gens: int, size: int, first_kind: str | None = N
     return ops
 
 
+_BASELINE: dict = {}
+
+
+def baseline_ok(chk: Check, algo: str, fam: str) -> bool:
+    """can a freshly built, never mutated agent of this (algorithm, observation family) act and learn
+    at all?  Combinations that cannot are outside this property (nothing was mutated) and are skipped."""
+    import agents as A
+    key = (algo, fam)
+    if key not in _BASELINE:
+        with A._PreservedRNG(), warnings.catch_warnings():
+            warnings.simplefilter("ignore")
+            try:
+                ag = A.build(algo, fam, seed=1, hp_config=A.default_hp_config(algo))
+                A.greedy_action(ag, algo, A.sample_obs(ag, algo, fam, 2, seed=1))
+                learn_round(ag, algo, fam, 1)
+                _BASELINE[key] = True
+            except Exception as e:
+                _BASELINE[key] = False
+                chk.notes.append(f"skipped {algo}/{fam}: a fresh, unmutated agent cannot act/learn "
+                                 f"({type(e).__name__}: {str(e)[:80]})")
+                chk.dist[f"skipped-baseline-{algo}-{fam}"] += 1
+    return _BASELINE[key]
+
+
 def case_list(chk: Check):
     import agents as A
     rng = chk.rng
@@ -707,7 +731,7 @@ def case_list(chk: Check):
     while extra > 0 and tries < 200:
         tries += 1
         algo, fam = rng.choice(A.ALGOS), rng.choice(fams)
-        if not A.supported(algo, fam) or A.known_broken(algo, fam):
+        if not A.supported(algo, fam) or A.known_broken(algo, fam) or not baseline_ok(chk, algo, fam):
             continue
         share = (rng.random() < 0.7) if algo in A.SHARE_ENCODER_ALGOS else None
         gens = rng.randint(1, 2) if quick else 4
